@@ -64,6 +64,18 @@ def pegLine (toks : List String) : String :=
          if s.fuelOut then "diverge"
          else if ok then s!"ok {s.pos} {traceStr s.trace}" else s!"err {traceStr s.trace}"
      | none => "bad-op")
+  | ["pegacts", cfg, src] =>
+    -- coverage probe: which grammar actions / code predicates ran (every action additionally writes the pseudo-opcode 1000+index)
+    (match bytesOf src with
+     | some bs =>
+       let (flags, maxCnt) := pegFlags cfg
+       let env0 := pegEnv bs.toArray maxCnt
+       let env := { env0 with acts := (List.range env0.acts.size).toArray.map (fun i => { (env0.acts[i]!) with effs := Eff.emit (1000 + i) :: (env0.acts[i]!).effs }) }
+       let (s, ok) := parseTop env flags 1000000
+       let seen : Array Bool := s.trace.foldl (fun (acc : Array Bool) x => if x ≥ 1000 && x - 1000 < acc.size then acc.set! (x - 1000) true else acc) (Array.replicate env0.acts.size false)
+       let ids := (List.range env0.acts.size).filter (fun i => seen[i]!)
+       (if ok then "ok " else "err ") ++ (if ids.isEmpty then "-" else ",".intercalate (ids.map toString))
+     | none => "bad-op")
   | ["pegleaks", cfg, src] =>
     -- the rules in which a sequence failed after code had been written inside it (emit-then-fail sites), in order of occurrence
     (match bytesOf src with
